@@ -143,6 +143,25 @@ def obligations(tier, seed):
                 obs.append(Ob(id='C08.spaceship.%s' % tag, prop='C08', group=grp + '.20', prelude=pre, wrappers=[w3], inputs=[(c1, 'a'), (c2, 'b')],
                               body=body, std='c++20', contract='C++20: (U1(a) <=> U2(b)) is less/equal/greater exactly as a*%d vs b*%d' % (N, D),
                               functions_under_contract=('au::operator<=>(Quantity, Quantity)',)))
+    # ---- the same operators through the overloads for Quantity-EQUIVALENT types (anything with a CorrespondingQuantity, here std::chrono::duration), both operand orders
+    for (crep, per, k_d) in (('int64_t', 'std::milli', 1000), ('int32_t', 'std::ratio<60>', 60)):
+        big = k_d > 1 and per != 'std::milli'
+        # milli: duration unit is 1/1000 s (quantity scales by 1000); minutes: duration unit is 60 s (duration scales by 60)
+        Dx = 'std::chrono::duration<%s, %s>{a}' % (crep, per); Qx = 'au::make_quantity<au::Seconds>(b)'
+        Aexp, Bexp = ('(i128)a', '((i128)b * 1000)') if per == 'std::milli' else ('((i128)a * 60)', '(i128)b')
+        X_ = 10 ** 9 if crep == 'int64_t' else 10 ** 6
+        ws_ = []; checks_ = []
+        for n, op in OPS:
+            wl = Wrapper('w_ql_%s_%s' % (n, crep[:5] + per[-3:-1]), 'bool', [(crep, 'a'), (crep, 'b')], 'return %s %s %s;' % (Dx, op, Qx))
+            wr = Wrapper('w_qr_%s_%s' % (n, crep[:5] + per[-3:-1]), 'bool', [(crep, 'a'), (crep, 'b')], 'return %s %s %s;' % (Qx, op, Dx))
+            ws_ += [wl, wr]
+            checks_.append('  CHECK(%s(a, b) == (%s %s %s), "quantity-like-on-the-left-%s");' % (wl.name, Aexp, op, Bexp, n))
+            checks_.append('  CHECK(%s(a, b) == (%s %s %s), "quantity-like-on-the-right-%s");' % (wr.name, Bexp, op, Aexp, n))
+        obs.append(Ob(id='C08.cmp-quantity-like.%s_%s' % (crep.replace('_t', ''), per.replace('std::', '').replace('<', '').replace('>', '')), prop='C08', group='C08.qlike.%s' % crep, 
+                      prelude='#include <chrono>\n#include "au/chrono_interop.hh"\n#include "au/units/seconds.hh"', wrappers=ws_, inputs=[(crep, 'a'), (crep, 'b')],
+                      body='\n  ASSUME(a >= -%d && a <= %d && b >= -%d && b <= %d);\n%s\n' % (X_, X_, X_ // 1000, X_ // 1000, '\n'.join(checks_)),
+                      contract='forall bounded a, b: the six comparisons between a Quantity-equivalent value (std::chrono::duration<%s, %s>{a}) and seconds(b), in both operand orders, equal the exact '
+                               'order of the two durations' % (crep, per), functions_under_contract=('au::operator==..>=(QLike, Quantity)', 'au::operator==..>=(Quantity, QLike)')))
     for (R1, R2, N, D) in (FP if tier == 'thorough' else FP[:3]):
         c1, c2 = G.ctype(R1), G.ctype(R2)
         CR = G.common(R1, R2); cr = G.ctype(CR)
